@@ -27,8 +27,10 @@ func NewFakePC(rec *Recorder) *FakePC {
 	return &FakePC{Rec: rec, in: make(chan fakeDg, 4096), closed: make(chan struct{})}
 }
 
-func ClientAddr(c int) *net.UDPAddr { return &net.UDPAddr{IP: net.IPv4(10, 0, 0, byte(c)), Port: 40000 + c} }
-func ClientName(c int) string       { return fmt.Sprintf("c%d", c) }
+func ClientAddr(c int) *net.UDPAddr {
+	return &net.UDPAddr{IP: net.IPv4(10, 0, 0, byte(c)), Port: 40000 + c}
+}
+func ClientName(c int) string { return fmt.Sprintf("c%d", c) }
 
 // ClientOfAddrString is ClientOfAddr for an address in string form.
 func ClientOfAddrString(a string) string {
